@@ -144,10 +144,6 @@ func (s *Solver) declare(b *strings.Builder, ts []*Term) {
 				panic("undeclared var " + v)
 			}
 			fmt.Fprintf(b, "(declare-const %s %s)\n", quoteSym(d.Name), sortStr(d.Kind, d.W))
-			if d.Kind == SString {
-				// ASCII alphabet restriction (Go bytes == SMT code points)
-				fmt.Fprintf(b, "(assert (str.in_re %s (re.* (re.range \"\\u{0}\" \"\\u{7f}\"))))\n", quoteSym(d.Name))
-			}
 		}
 	}
 }
@@ -158,6 +154,14 @@ var GlobalQueries, GlobalSolverNanos int64
 // non-nil and the result is Sat, values of those terms are returned as
 // SMT text.
 func (s *Solver) Check(asserts []*Term, want []*Term) (Result, []string) {
+	return s.CheckA(asserts, want, false)
+}
+
+// CheckA is Check with an optional restriction of every string variable in the
+// query to the ASCII alphabet (Go bytes == SMT code points). Feasibility
+// queries run without it (a superset domain, sound for pruning and for unsat
+// assertion answers); counterexamples are always produced with it.
+func (s *Solver) CheckA(asserts []*Term, want []*Term, ascii bool) (Result, []string) {
 	t0 := time.Now()
 	defer func() {
 		d := time.Since(t0)
@@ -177,6 +181,22 @@ func (s *Solver) Check(asserts []*Term, want []*Term) (Result, []string) {
 		b.WriteString("(assert ")
 		b.WriteString(a.SMT())
 		b.WriteString(")\n")
+	}
+	if ascii {
+		seen := map[string]bool{}
+		for _, grp := range [][]*Term{asserts, want} {
+			for _, a := range grp {
+				for _, v := range a.Vars() {
+					if seen[v] || strings.HasPrefix(v, "\x00") {
+						continue
+					}
+					seen[v] = true
+					if d, ok := lookupDecl(v); ok && d.Kind == SString {
+						fmt.Fprintf(&b, "(assert (str.in_re %s (re.* (re.range \"\\u{0}\" \"\\u{7f}\"))))\n", quoteSym(d.Name))
+					}
+				}
+			}
+		}
 	}
 	b.WriteString("(check-sat)\n")
 	s.send(b.String())
@@ -420,6 +440,16 @@ func (p *SolverPool) Put(s *Solver) {
 	p.mu.Lock()
 	p.free = append(p.free, s)
 	p.mu.Unlock()
+}
+
+func (p *SolverPool) KillAll() {
+	p.mu.Lock()
+	defer p.mu.Unlock()
+	for _, s := range p.all {
+		if s.cmd != nil && s.cmd.Process != nil {
+			s.cmd.Process.Kill()
+		}
+	}
 }
 
 func (p *SolverPool) Close() {
